@@ -26,7 +26,11 @@ ORACLE_EXE = os.path.join(C.BIN, "oracle_rr")
 CORPUS = os.path.join(C.VERIF, "corpus", "regressions", "C01.jsonl")
 
 
-# ------------------------------------------------------------------ known-finding matchers
+# ------------------------------------------------------------------ known findings
+# The four defects this check found (BYWEEKNO near year boundaries, WEEKLY+BYSETPOS first week,
+# WEEKLY+BYEASTER across the year end, year-1 BYWEEKNO ValueError) were repaired in /repo (commits 83f8e67,
+# 12b1f51, c760855, 049bb14); their witnesses run first on every check from corpus/regressions/C01.jsonl and
+# there is no open finding and no matcher: every difference is a VIOLATION.
 def _first_diff(a, b):
     """first instant at which two increasing sequences differ (the smaller of the two members)"""
     for x, y in zip(a, b):
@@ -38,15 +42,6 @@ def _first_diff(a, b):
     return None
 
 
-def _straddles_year(o, wkst):
-    """the wkst-week containing ordinal o has days of two calendar years (or leaves 1..MAXORD)"""
-    ws = o - ((o + 6) % 7 - wkst) % 7
-    lo, hi = max(ws, 1), min(ws + 6, RC.MAXORD)
-    if lo != ws or hi != ws + 6:
-        return True
-    return datetime.date.fromordinal(lo).year != datetime.date.fromordinal(hi).year
-
-
 def _payload_first_diff(p):
     impl, spec = p.get("impl"), p.get("spec")
     if not impl or not spec:
@@ -56,123 +51,7 @@ def _payload_first_diff(p):
     return _first_diff(impl["items"], si)
 
 
-def _until_after(c, p):
-    """UNTIL one period (+ a week) after the last instant either side produced: bounds the BYSETPOS-free
-    re-run while keeping the whole period of that instant inside the horizon (negative positions count
-    from the period's end)"""
-    f = c["freq"] if 0 <= c["freq"] <= 6 else 0
-    last = max(p["impl"]["items"] + p["spec"]["items"] + [0]) + RC.PERIOD_SECS[f] + 8 * 86400
-    last = min(last, RC.MAXORD * 86400 + 86399)
-    o, sod = divmod(last, 86400)
-    d = datetime.date.fromordinal(max(o, 1))
-    u = {"kind": "naive", "y": d.year, "m": d.month, "d": d.day, "H": sod // 3600, "M": sod // 60 % 60,
-         "S": sod % 60, "us": 0}
-    if c["start"]["kind"] == "aware":
-        u["kind"] = "aware"
-        u["same_tz"] = True
-    return u
-
-
-def match_weekno_year_boundary(p):
-    """D1c: BYWEEKNO supplied with a member +-52 / +-53 (the guard's complement of
-    C01_wnomask_correct_guarded); the first instant on which implementation and specification differ
-    lies in a week that straddles a year boundary (with BYSETPOS: the same holds for the rule with
-    BYSETPOS removed, because a missed boundary day shifts every position of that period)."""
-    if p.get("kind") != "spec":
-        return False
-    c = p["input"]
-    if not c.get("byweekno") or p["impl"]["status"] == "R" and p["impl"]["exn"] != 1:
-        return False
-    if not any(abs(n) >= 52 for n in c["byweekno"]):
-        # C01_wnomask_correct_guarded: members within -51..51 are handled correctly by the code, so a
-        # difference on such a rule is NOT this finding
-        return False
-    if c.get("bysetpos"):
-        c2 = dict(c)
-        c2["bysetpos"] = None
-        c2["count"] = None
-        c2["N"] = 600       # a missed / extra boundary day shifts positions: look at the whole horizon
-        c2["until"] = _until_after(c, p)
-        orc = RC.TimedOracle(ORACLE_EXE)
-        try:
-            r = RC.evaluate(c2, orc)
-        finally:
-            orc.close()
-        if not r["spec_verdict"] or r["spec_verdict"] == "inconclusive":
-            return False
-        fd = _payload_first_diff({"impl": r["impl"], "spec": r["spec"]})
-    else:
-        fd = _payload_first_diff(p)
-    if fd is None:
-        return False
-    return _straddles_year(fd // 86400, c["wkst"])
-
-
-def match_weekly_setpos_first_week(p):
-    """D1e: WEEKLY + BYSETPOS, start not on the week start; the first differing instant lies in the
-    (partial) first week"""
-    if p.get("kind") != "spec":
-        return False
-    c = p["input"]
-    if c["freq"] != 2 or not c.get("bysetpos") or p["impl"]["status"] == "R":
-        return False
-    s = c["start"]
-    o0 = datetime.date(s["y"], s["m"], s["d"]).toordinal()
-    back = ((o0 + 6) % 7 - c["wkst"]) % 7
-    if back == 0:
-        return False
-    fd = _payload_first_diff(p)
-    return fd is not None and o0 - back <= fd // 86400 < o0 - back + 7
-
-
-def match_weekly_easter_year_end(p):
-    """D1f: WEEKLY + BYEASTER; the first differing instant is one of the first 7 days of January and
-    lies in the week that straddles the year boundary (with BYSETPOS: same for the rule without it)"""
-    if p.get("kind") != "spec":
-        return False
-    c = p["input"]
-    if c["freq"] != 2 or not c.get("byeaster") or p["impl"]["status"] == "R" and p["impl"]["exn"] != 1:
-        return False
-    if c.get("bysetpos"):
-        c2 = dict(c)
-        c2["bysetpos"] = None
-        c2["count"] = None
-        c2["N"] = 600       # a missed / extra boundary day shifts positions: look at the whole horizon
-        c2["until"] = _until_after(c, p)
-        orc = RC.TimedOracle(ORACLE_EXE)
-        try:
-            r = RC.evaluate(c2, orc)
-        finally:
-            orc.close()
-        if not r["spec_verdict"] or r["spec_verdict"] == "inconclusive":
-            return False
-        fd = _payload_first_diff({"impl": r["impl"], "spec": r["spec"]})
-    else:
-        fd = _payload_first_diff(p)
-    if fd is None:
-        return False
-    o = fd // 86400
-    try:
-        d = datetime.date.fromordinal(o)
-    except (ValueError, OverflowError):
-        return False
-    return d.month == 1 and d.day <= 7 and _straddles_year(o, c["wkst"])
-
-
-def match_year1_weekno(p):
-    """start in year 1, BYWEEKNO supplied: ValueError from datetime.date(0, 1, 1) at the first next()"""
-    if p.get("kind") != "spec":
-        return False
-    c = p["input"]
-    i = p["impl"]
-    return (c["start"]["y"] == 1 and bool(c.get("byweekno")) and i["status"] == "R" and i["exn"] == 1
-            and i["phase"] == 1 and not i["items"] and -1 not in c["byweekno"])
-
-
-MATCHERS = {"year1_weekno": match_year1_weekno,
-            "weekno_year_boundary": match_weekno_year_boundary,
-            "weekly_setpos_first_week": match_weekly_setpos_first_week,
-            "weekly_easter_year_end": match_weekly_easter_year_end}
+MATCHERS = {}
 
 
 # ------------------------------------------------------------------ streams
@@ -463,47 +342,39 @@ def main():
                     "class, constructor-vs-iteration phase; every yielded value checked for microsecond == 0, "
                     "tzinfo is dtstart's, strictly increasing",
         "partial_theorems": [t for t in props["theorems"] if "partial" in t or "guarded" in t],
+        "fixed_findings": "F-C01-weekno (83f8e67), F-C01-setpos-week (12b1f51), F-C01-easter-week (c760855), "
+                          "F-C01-year1-weekno (049bb14): found by this check, repaired in /repo, witnesses in "
+                          "corpus/regressions/C01.jsonl and coq/rr/RRRegress.v",
         "theorem_status": {
             "guards": {
-                "C01_wnomask_correct_guarded": "BYWEEKNO members within -51..51, years 2..9999; the complement "
-                                               "(+-52, +-53) is refuted by C01_wnomask_refuted = F-C01-weekno",
-                "C01_eastermask_correct_partial": "years 1583..4099 (the range of C19's theorem); the 7-day "
-                                                  "extension is refuted by C01_eastermask_extension_refuted "
-                                                  "= F-C01-easter-week",
+                "C01_wnomask_correct": "BYWEEKNO members within the RFC 5545 range -53..53; every year",
+                "C01_eastermask_correct_partial": "years 1583..4098 (this and the next year inside the range of "
+                                                  "C19's theorem)",
                 "C01_cl_weekday_plain_correct": "no nth-weekday mask (plain BYDAY)",
                 "C01_day_filter_correct_partial": "day-selecting parts among BYMONTH/BYMONTHDAY/BYYEARDAY/plain BYDAY",
-                "C01_day_filter_correct_weekno_guarded": "as above plus BYWEEKNO with members in -51..51, years 2..9999",
-                "C01_day_filter_correct_guarded": "as above plus BYEASTER when 1583 <= year <= 4099",
-                "C01_day_filter_correct_monthly_nth_guarded": "MONTHLY with nth weekdays, days of the cursor's month, "
-                                                              "same BYWEEKNO / BYEASTER guards",
-                "C01_day_filter_correct_yearly_nth_guarded": "YEARLY without BYMONTH with nth weekdays, same guards",
-                "C01_yearly_pass_days_correct": "YEARLY, plain BYDAY, same BYWEEKNO / BYEASTER guards, years 2..9999",
-                "C01_yearly_pass_is_spec_step": "as above, no BYSETPOS, iterinfo = rebuild from the initial one",
+                "C01_day_filter_correct_weekno": "as above plus BYWEEKNO (RFC range), years 1..9999",
+                "C01_day_filter_correct_guarded": "as above plus BYEASTER when 1583 <= year <= 4098",
+                "C01_day_filter_correct_monthly_nth_guarded": "MONTHLY with nth weekdays, days of the cursor's month",
+                "C01_day_filter_correct_yearly_nth_guarded": "YEARLY without BYMONTH with nth weekdays",
+                "C01_yearly_pass_is_spec_step": "YEARLY, plain BYDAY, no BYSETPOS, iterinfo = rebuild from the "
+                                                "initial one",
                 "C01_timeset_is_spec": "FREQ coarser than HOURLY",
-                "C01_rrule_iter_correct_partial": "yfam: YEARLY, spec_wf, plain BYDAY, no BYSETPOS/BYEASTER/COUNT/"
-                                                  "UNTIL, BYWEEKNO in -51..51; start year >= 2; r_y + n*interval <= 9999",
-                "C01_rrule_iter_correct_easter_partial": "same family with BYEASTER, all passes within 1583..4099",
-                "C01_rrule_iter_correct_count_partial": "same family with COUNT and BYEASTER (no UNTIL)",
-                "C01_rrule_iter_correct_yearly_partial": "same family with COUNT, UNTIL and BYEASTER",
-                "C01_rrule_iter_correct_yearly_all_fuel_partial": "same family without BYEASTER: every fuel, no bound "
-                                                                  "on the number of passes (MAXYEAR end included)"},
+                "C01_rrule_iter_correct_yearly_partial": "yfam_u: YEARLY, spec_wf, plain BYDAY, no BYSETPOS; COUNT, "
+                                                         "UNTIL allowed; BYEASTER only with all passes in 1583..4098; "
+                                                         "passes within year 9999",
+                "C01_rrule_iter_correct_yearly_all_fuel_partial": "same family without BYEASTER: every fuel incl. "
+                                                                  "the MAXYEAR end"},
             "not_proved_correspondence_only": [
-                "rrule_iter_correct (model = spec for every rule in spec_wf): FALSE of the code (4 refuted "
-                "witnesses); under guards proved only for the family of C01_rrule_iter_correct_yearly_partial "
-                "(YEARLY, no BYSETPOS / nth weekday; COUNT and UNTIL allowed; BYWEEKNO within -51..51, BYEASTER "
-                "within 1583..4099 (then passes within that range), start year >= 2; without BYEASTER for every "
-                "number of passes incl. the MAXYEAR end)",
-                "day_filter_correct for YEARLY+BYMONTH rules with nth-weekday BYDAY (mask proved, layer 3, not "
-                "plugged into C01_day_filter_correct_*), and for the 7-day extension of WEEKLY rules",
-                "the loop theorem for the other six frequencies, for nth weekdays and BYSETPOS; see notes/rr.md",
-                "MONTHLY and WEEKLY day sets (mdayset, wdayset), BYSETPOS selection, BYWEEKNO/nth/easter "
-                "clauses inside the filter",
-                "advance_correct as a statement about the whole loop (cursor of pass k = period k); proved: "
-                "the carry arithmetic of every YEARLY..DAILY branch",
-                "sub-daily advance layer (filtered jump, rep_rate//gcd search, htimeset/mtimeset/stimeset); "
-                "proved: __mod_distance and __construct_byset specifications",
-                "strictly increasing / no duplicates as a theorem (checked on every yielded sequence instead)",
-                "no IndexError / only ValueError for the whole loop (proved per mask builder)"]},
+                "rrule_iter_correct (model = spec for every rule in spec_wf): proved only for the YEARLY family "
+                "above; MONTHLY / WEEKLY / DAILY and the sub-daily frequencies, BYSETPOS and nth weekdays inside "
+                "the loop theorem are not proved",
+                "day_filter_correct for YEARLY+BYMONTH rules with nth-weekday BYDAY and for the 7-day extension of "
+                "WEEKLY rules (their masks are proved)",
+                "MONTHLY and WEEKLY day sets (mdayset, wdayset), BYSETPOS selection (poslist_build vs select_pos)",
+                "sub-daily advance layer as a whole (proved: __mod_distance and __construct_byset specifications)",
+                "strictly increasing / no duplicates as a theorem outside the YEARLY family (checked on every "
+                "yielded sequence instead)",
+                "no IndexError / only ValueError for the whole loop (proved per mask builder and for rebuild)"]},
         "refuted_theorems": [t for t in props["theorems"] if "refuted" in t],
         "differential_only": ["sub-daily advance layer (HOURLY/MINUTELY/SECONDLY jumps, __mod_distance)",
                               "rules outside spec_wf (empty BY-lists, BYMONTHDAY 0, out-of-range time parts): "
